@@ -137,8 +137,18 @@ def location(sp):
     return ("stack", off)
 
 
+# pointer kinds.  Readable (carry bytes): str (pool), wall (ends with its NUL on the last byte before a
+# PROT_NONE page), after (first byte of the mapping that follows the PROT_NONE page), hole_before / hole_after
+# (same around an unmapped hole).  Unreadable: small (0x10), none (inside the PROT_NONE page), edge (exactly the
+# end address of the readable mapping = first byte of the PROT_NONE page), edge_last (its last byte),
+# hole_edge / hole_mid / hole_last (same for the unmapped hole).
+READABLE = ("str", "wall", "after", "hole_before", "hole_after")
+UNREADABLE = ("small", "none", "edge", "edge_last", "hole_edge", "hole_mid", "hole_last")
+PAGE = 4096
+
+
 class Ptr:
-    """a pointer-valued argument: kind in str/null/small/none/wall/obj"""
+    """a pointer-valued argument: kind in READABLE + UNREADABLE + null/obj"""
     def __init__(self, kind, data=b"", slot=0, inner=None):
         self.kind, self.data, self.slot, self.inner = kind, data, slot, inner
 
@@ -153,6 +163,7 @@ class Layout:
         self.wall = int(kv["wall"], 16)
         self.strpool = int(kv["strpool"], 16)
         self.objpool = int(kv["objpool"], 16)
+        self.hole = int(kv.get("hole", "0"), 16)
         self.argbuf_size = int(kv["argbuf_size"])
         self.raw = line
 
@@ -169,7 +180,35 @@ class Layout:
             return self.none
         if p.kind == "obj":
             return self.objpool + 32 * p.slot
+        if p.kind == "edge":
+            return self.wall
+        if p.kind == "edge_last":
+            return self.wall + PAGE - 1
+        if p.kind == "after":
+            return self.wall + PAGE
+        if not self.hole and p.kind.startswith("hole_"):
+            # no hole area in this run: the same position at the PROT_NONE page
+            return self.addr(Ptr({"hole_edge": "edge", "hole_mid": "none", "hole_last": "edge_last",
+                                  "hole_before": "wall", "hole_after": "after"}[p.kind], p.data, p.slot))
+        if p.kind == "hole_edge":
+            return self.hole
+        if p.kind == "hole_mid":
+            return self.hole + 16
+        if p.kind == "hole_last":
+            return self.hole + PAGE - 1
+        if p.kind == "hole_before":
+            return self.hole - (len(p.data) + 1)
+        if p.kind == "hole_after":
+            return self.hole + PAGE
         raise ValueError(p.kind)
+
+    def regions(self):
+        """the mapped readable regions string pointers of the generated cases can fall into"""
+        r = [(self.strpool, self.strpool + 64 * 160), (self.objpool, self.objpool + 64 * 32),
+             (self.wall - PAGE, self.wall), (self.wall + PAGE, self.wall + 2 * PAGE)]
+        if self.hole:
+            r += [(self.hole - PAGE, self.hole), (self.hole + PAGE, self.hole + 2 * PAGE)]
+        return r
 
 
 # ---------------------------------------------------------------------------------------------
@@ -235,6 +274,8 @@ def script_for(c, lay, t0):
             s.append("STR %d %s" % (p.slot, p.data.hex() or "-"))
         elif p.kind == "wall":
             s.append("STRW %d %s" % (p.slot, p.data.hex() or "-"))
+        elif p.kind in READABLE:
+            s.append("STRAT %x %s" % (lay.addr(p), p.data.hex() or "-"))
     for p in all_ptrs(c):
         if p.kind == "obj":
             s.append("OBJ %d %x" % (p.slot, lay.addr(p.inner) if p.inner is not None else 0))
@@ -266,7 +307,7 @@ def script_for(c, lay, t0):
 def machine_tokens(c, lay, ret):
     strs, objs = [], []
     for p in all_ptrs(c):
-        if p.kind in ("str", "wall"):
+        if p.kind in READABLE:
             strs.append("%x:%s" % (lay.addr(p), p.data.hex() or "-"))
         elif p.kind == "obj":
             objs.append("%x:%x" % (lay.addr(p), lay.addr(p.inner) if p.inner is not None else 0))
@@ -279,7 +320,8 @@ def machine_tokens(c, lay, ret):
         t.append("str=" + ";".join(strs))
     if objs:
         t.append("obj=" + ";".join(objs))
-    return " ".join(t) if ret or True else ""
+    t.append("reg=" + ";".join("%x:%x" % r for r in lay.regions()))
+    return " ".join(t)
 
 
 # ---------------------------------------------------------------------------------------------
@@ -289,7 +331,8 @@ def expected_string(p, lay):
     """what the reader must end up with for a char* argument: bytes, or None for NULL"""
     if p.kind == "null":
         return None
-    if p.kind in ("small", "none"):
+    if p.kind in UNREADABLE:
+        # the property: shown as an address, never dereferenced
         return ("<0x%x>" % lay.addr(p)).encode()
     if p.kind == "obj":
         if p.inner is None:
@@ -529,10 +572,12 @@ def rand_ptr(rng, slots, maxlen=110, alphabet=None):
         return Ptr("str", rand_bytes(rng, min(n, maxlen), alphabet or rng.choice(["any", "ascii", "text"])), slot)
     if r < 0.76:
         return Ptr("null")
-    if r < 0.84:
+    if r < 0.82:
         return Ptr("small")
-    if r < 0.92:
+    if r < 0.88:
         return Ptr("none")
+    if r < 0.92:
+        return Ptr(rng.choice(["edge", "edge_last", "hole_edge", "hole_mid", "hole_last"]))
     return Ptr("wall", rand_bytes(rng, rng.randint(0, min(maxlen, 60)), "ascii"), slot)
 
 
@@ -874,12 +919,62 @@ def gen_xmm(rng):
             c.ptrs[("reg", 0)] = a
             c.ptrs[("reg", 1)] = Ptr("str", b"second", 2) if a.kind != "none" else Ptr("small")
             c.tag = "string argument: %s" % a.kind
-            c.no_model = a.kind in ("small", "none")
+            c.no_model = a.kind in UNREADABLE
             p.calls.append(c)
     c = Call(3)
     fill_values(rng, [], c, [8])
     c.tag = "too big"
     p.calls.append(c)
+    return p
+
+
+def gen_boundaries(rng, lay):
+    """string pointers at the boundaries of mappings: the verdict must be `readable iff the first byte lies
+    in a mapped readable region [start, end)`, and an unreadable pointer must never be dereferenced"""
+    p = Proc("mapping-boundaries")
+    p.fns[1] = [Spec("arg", 1, "s")]
+    p.fns[2] = [Spec("arg", 2, "s"), Spec("arg", 1, "i", 32), Spec("retval", fmt="s")]
+    p.fns[3] = [Spec("arg", 1, "S"), Spec("retval", fmt="S")]
+    p.fns[4] = [Spec("arg", 7, "s"), Spec("arg", 1, "s", loc=("stack", 2))]
+    readable = [("wall", b""), ("wall", b"x"), ("wall", rand_bytes(rng, 97, "ascii")), ("wall", rand_bytes(rng, 110, "ascii")),
+                ("after", b""), ("after", b"first byte of a mapping"), ("after", rand_bytes(rng, 105, "ascii"))]
+    unreadable = ["edge", "edge_last", "none", "small"]
+    if lay.hole:
+        readable += [("hole_before", b""), ("hole_before", b"last bytes"), ("hole_before", rand_bytes(rng, 99, "ascii")),
+                     ("hole_after", b""), ("hole_after", b"after the hole")]
+        unreadable += ["hole_edge", "hole_mid", "hole_last"]
+    kinds = [Ptr(k, d, 0) for k, d in readable] + [Ptr(k) for k in unreadable]
+    for a in kinds:
+        c = Call(1, depth=rng.choice([0, 1]))
+        fill_values(rng, [], c, [8])
+        c.ptrs[("reg", 0)] = a
+        c.tag = "f(%s%s)" % (a.kind, " len=%d" % len(a.data) if a.kind in READABLE else "")
+        p.calls.append(c)
+        c = Call(2)
+        fill_values(rng, [], c, [8])
+        c.ptrs[("reg", 1)] = a
+        c.rvptr = Ptr(a.kind, a.data, a.slot)
+        c.tag = "g(1, %s) = %s" % (a.kind, a.kind)
+        p.calls.append(c)
+        c = Call(3)
+        fill_values(rng, [], c, [8])
+        c.ptrs[("reg", 0)] = Ptr("obj", slot=0, inner=a)
+        c.rvptr = Ptr("obj", slot=1, inner=Ptr(a.kind, a.data, a.slot))
+        c.tag = "std::string with data pointer %s" % a.kind
+        p.calls.append(c)
+        if a.kind in UNREADABLE:
+            c = Call(3)
+            fill_values(rng, [], c, [8])
+            c.ptrs[("reg", 0)] = a
+            c.rvptr = Ptr(a.kind)
+            c.tag = "std::string object at %s" % a.kind
+            p.calls.append(c)
+        c = Call(4)
+        fill_values(rng, [], c, [8])
+        c.ptrs[("stack", 1)] = a
+        c.ptrs[("stack", 2)] = Ptr("str", b"other", 3)
+        c.tag = "stack argument %s" % a.kind
+        p.calls.append(c)
     return p
 
 
@@ -958,7 +1053,14 @@ def run_proc(ctx, exe, lay, p, idx):
     cleanup_shm(r)
     p.raw = r
     out = r["lines"]
-    if not out or not out[0].startswith("SYMS ") or out[0] != lay.raw or len(out) != len(script) + 1:
+    p.crash = None
+    for l in out:
+        m = re.match(r"(\d+) CRASH sig=(\d+)", l)
+        if m:
+            opno = int(m.group(1))
+            owner = [i for i, c in enumerate(p.calls) if c.first_op < opno <= c.first_op + len(c.lines)]
+            p.crash = (owner[0] if owner else None, int(m.group(2)), script[opno - 1] if opno <= len(script) else "?")
+    if p.crash or not out or not out[0].startswith("SYMS ") or out[0] != lay.raw or len(out) != len(script) + 1:
         p.failed = "rc=%s lines=%d/%d stderr=%s first=%s" % (r["rc"], len(out), len(script) + 1, r["stderr"][-300:],
                                                              out[0][:80] if out else "")
         return p
@@ -1146,7 +1248,7 @@ def run(ctx):
         lay = Layout(probes[0]["lines"][0])
 
         rng = ctx.rng
-        procs = [gen_sweep_strings(rng), gen_null_cases(rng), gen_many_ints(rng), gen_xmm(rng)]
+        procs = [gen_sweep_strings(rng), gen_null_cases(rng), gen_many_ints(rng), gen_xmm(rng), gen_boundaries(rng, lay)]
         for lo in ((880, 1000, 1120) if not thorough else (0, 120, 240, 360, 480, 600, 720, 840, 880, 1000, 1120)):
             procs.append(gen_capacity(rng, lo, lo + 124))
         nrand = 10 if not thorough else 150
@@ -1156,14 +1258,33 @@ def run(ctx):
             list(ex2.map(lambda ip: run_proc(ctx, exe, lay, ip[1], ip[0]), enumerate(procs)))
         made_ok, make_log = fut_make.result()
 
-    failed = [p for p in procs if p.failed]
-    if failed:
-        # a crash of the traced program is itself a violation of the property (unreadable pointers
-        # must not fault); report the process with its inputs
-        p = failed[0]
-        C.violation(ctx, "harness-" + p.name, {"kind": "implementation-crashed-or-harness-failed", "proc": p.name,
-                                                "what": p.failed, "env": p.env(),
-                                                "calls": [c.tag for c in p.calls][:20]}, no_failing_input=True)
+    # M6: the traced program must survive whatever pointer it passes ("an unreadable string pointer is shown
+    # as an address instead of faulting the traced program")
+    crashed = 0
+    for p in [p for p in procs if p.failed]:
+        if p.crash and p.crash[0] is not None:
+            ci, sig, op = p.crash
+            c = p.calls[ci]
+            crashed += 1
+            C.violation(ctx, "crash-%s-%d" % (p.name, ci), {
+                "kind": "property-violated-on-implementation",
+                "what": "the traced program received signal %d inside the %s hook (%s)"
+                        % (sig, "exit" if op == "X" else "entry", c.tag or "f%d" % c.fn),
+                "proc": p.name, "call": ci, "tag": c.tag, "fn": "f%d" % c.fn,
+                "specs": [s.text() for s in p.fns.get(c.fn, [])],
+                "pointers": [{"kind": pt.kind, "addr": "%#x" % lay.addr(pt),
+                              "mapped_readable": any(a <= lay.addr(pt) < b for a, b in lay.regions())}
+                             for pt in all_ptrs(c)],
+                "readable_regions": ["%#x-%#x" % r for r in lay.regions()],
+                "env": {k: v for k, v in p.env().items() if len(v) < 600}, "driver_script": c.lines[:80],
+                "theorem": "c09_unreadable_never_read (the verdict must be: readable iff start <= p < end of a mapped "
+                           "readable region)"})
+        else:
+            C.violation(ctx, "harness-" + p.name, {"kind": "implementation-crashed-or-harness-failed", "proc": p.name,
+                                                    "what": p.failed, "env": p.env(),
+                                                    "calls": [c.tag for c in p.calls][:20]}, no_failing_input=True)
+    procs = [p for p in procs if not p.failed]
+    if not procs:
         return C.finish(ctx)
 
     # ---- model, all four variants -------------------------------------------------------------
@@ -1216,7 +1337,7 @@ def run(ctx):
             ie, ix = kv(c.impl_e), kv(c.impl_x)
             distinct.add((tuple(s.token() for s in specs), c.impl_e.split(" ", 1)[1], c.impl_x.split(" ", 1)[1]))
             for pt in all_ptrs(c):
-                if pt.kind in ("str", "wall"):
+                if pt.kind in READABLE:
                     n_str_lens.add(len(pt.data))
             # M5 the hook must not change the traced function's floating-point argument registers
             if int(ie.get("xc", "0"), 16):
@@ -1255,9 +1376,9 @@ def run(ctx):
             mon["framing"].append((p, None, "whole stream: " + err))
     # M3 NULL distinguishable: the same function called with NULL and with a real string must not
     # produce the same payload
-    pn = [p for p in procs if p.name == "null-and-unreadable"][0]
+    pn = ([p for p in procs if p.name == "null-and-unreadable"] + [None])[0]
     entry_pay = {}
-    for i, c in enumerate(pn.calls):
+    for i, c in enumerate(pn.calls if pn else []):
         if c.fn != 1:
             continue
         recs, _ = py_decode_stream(pn, lay, bytes.fromhex(c.impl_recs))
@@ -1313,9 +1434,9 @@ def run(ctx):
     val_other = [v for v in mon["values"] if (v[0].name, v[1]) not in xmm_calls]
     if mon["xmm"]:
         p, i, w = mon["xmm"][0]
-        unread = sum(1 for (q, j, _) in mon["xmm"] if any(pt.kind in ("small", "none") for pt in all_ptrs(q.calls[j])))
+        unread = sum(1 for (q, j, _) in mon["xmm"] if any(pt.kind in UNREADABLE for pt in all_ptrs(q.calls[j])))
         other = [(q, j, w2) for (q, j, w2) in mon["xmm"]
-                 if not any(pt.kind in ("small", "none") for pt in all_ptrs(q.calls[j]))
+                 if not any(pt.kind in UNREADABLE for pt in all_ptrs(q.calls[j]))
                  and kv(q.calls[j].impl_e).get("arg") == "1"]
         for (q, j, w2) in other[:2]:
             d = describe(q, j)
@@ -1400,7 +1521,9 @@ def run(ctx):
         "distinct_nontrivial": len(distinct),
         "rule": "H1: per process a table of up to 31 functions with spec lists; per call a full machine state "
                 "(6 integer registers, 8 xmm, 110 stack words, return value, xmm0/st0 at exit, string pointers: "
-                "readable / NULL / 0x10 / PROT_NONE / ending at a page wall / std::string objects). Systematic: every "
+                "readable / NULL / 0x10 / PROT_NONE / ending at a page wall / std::string objects; mapping boundaries: last "
+                "byte of a mapping, first byte of a mapping, exactly the end address of a mapping followed by a PROT_NONE "
+                "page or by an unmapped hole). Systematic: every "
                 "string length 0..110 as argument and return value at both alignments mod 8; pre-fills 880..1020 step 4 "
                 "x string lengths through the slice boundary; 126..255 integer arguments; NULL/\"NULL\"/unreadable grid; "
                 "then random spec lists x random boundary values. distinct = distinct (spec list, slice after entry, "
@@ -1410,6 +1533,7 @@ def run(ctx):
         "model_code_disagreements": {str(list(fx)): len(diffs[fx]) for fx in variants},
         "record_byte_disagreements": len(rec_diffs),
         "monitor_failures": {k: len(v) for k, v in mon.items()},
+        "traced_program_crashes": crashed,
         "calls_out_of_bounds": len(mon["bounds"]),
         "h3": {k: v for k, v in h3.items() if k != "violations"},
         "h5": h5,
@@ -1420,8 +1544,9 @@ def run(ctx):
         "x86-64 SysV: integer arguments in rdi..r9 then stack words, floating point in xmm0..7 (low 64 bits)",
         "a string pointer accepted by check_mem_region points to a NUL-terminated string whose first 99 bytes "
         "(or all bytes up to the NUL) are readable",
-        "check_mem_region itself (the /proc/self/maps cache with its heap/stack rounding) is exercised, not modelled: "
-        "the model takes its verdict (readable / not) as input",
+        "check_mem_region: the model uses the specified verdict (readable iff the first byte lies in a mapped readable "
+        "region [start, end)) for the string pools, the pages around a PROT_NONE page and around an unmapped hole; the "
+        "heap/stack rounding heuristics of the /proc/self/maps cache are not probed",
         "H3 compares the default `uftrace replay` text (no colour, no JSON); floats are rendered by Python's %f",
     ]
     return C.finish(ctx)
@@ -1532,7 +1657,7 @@ def run_h3(ctx, procs, lay, fx, made_ok, make_log, thorough):
             ptrs = all_ptrs(c)
             nullish = any(pt.kind == "null" or (pt.kind == "obj" and pt.inner is None) for pt in ptrs)
             # the four bytes ff ff ff ff are the on-disk NULL marker itself (hypothesis of c09_null_distinguishable)
-            marker = any(pt.kind in ("str", "wall") and pt.data == b"\xff\xff\xff\xff" for pt in ptrs)
+            marker = any(pt.kind in READABLE and pt.data == b"\xff\xff\xff\xff" for pt in ptrs)
             skip_expected = (nullish and fx[0] == 0) or marker
             if has_float and skip_expected:
                 continue
